@@ -87,8 +87,8 @@ type spinResult struct {
 	First      string `json:"first"`
 	LeftLocked int    `json:"left_locked"`
 	// Unusable: keys that, at quiescence, a reader or - after a reader came and went - a writer cannot lock
-	Unusable int `json:"unusable_at_quiescence"`
-	Pattern    string `json:"pattern"`
+	Unusable int    `json:"unusable_at_quiescence"`
+	Pattern  string `json:"pattern"`
 }
 
 // spinStress hammers the public SpinLock API exactly the way doTxSync uses it.
